@@ -143,7 +143,7 @@ fn c09_case(reg: bool, kind: u8, name: &str, c: u8, n: u16, v: u16, rep: &mut Re
 }
 
 pub fn run_c09(cfg: &Cfg, rep: &mut Report) {
-    rep.rule("8 constructors x channel x number x value x both byte orders x {Raw, Structured} + array conversion: quick = full sweep of each dimension with the others at boundary values plus seeded tuples; thorough (release build) = the full product, one monitored region per (constructor, channel, number) row; non-trivial = a message whose number and value both exceed 127 in the 14-bit case or are non-zero otherwise (all four bit slices carry information); counted per distinct tuple (the seeded part may repeat a swept tuple with probability < 1e-3)");
+    rep.rule("8 constructors x channel x number x value x both byte orders x {Raw, Structured} + array conversion: quick = full sweep of each dimension with the others at boundary values plus seeded tuples; thorough (release build) = the full product, one monitored region per (constructor, channel, number) row; non-trivial = a message whose number and value both exceed 127 in the 14-bit case or are non-zero otherwise (all four bit slices carry information); counted per distinct tuple (the seeded part may repeat a swept tuple with probability < 1e-3) ; quick additionally covers every (channel, number) and every (channel, value) pair once");
     let bn: [u16; 9] = [0, 1, 127, 128, 129, 8191, 8192, 16382, 16383];
     let full = cfg.thorough && cfg.release && !cfg.as_c18;
     let nontriv = |kind: u8, n: u16, v: u16| -> bool {
@@ -382,7 +382,7 @@ pub fn random_pn_event(rng: &mut Rng, channels: u8, nvalues: u8, polls: bool, ti
 }
 
 pub fn run_c11(cfg: &Cfg, rep: &mut Report) {
-    rep.rule("fixpoint exploration of (real scanner x history oracle): alphabet = controllers {98,99,100,101,38,6,96,97} x abstract values, non-contributing representatives, system messages, reset, on one channel and on two channels; plus seeded random histories over the full 16x128x128 alphabet (few-value and full-value mixes, 1-16 channels); distinct_nontrivial = explorer states + random histories in which at least one message was reported");
+    rep.rule("fixpoint exploration of (real scanner x history oracle): alphabet = controllers {98,99,100,101,38,6,96,97} x abstract values, non-contributing representatives, system messages, reset, on one channel and on two channels; plus seeded random histories over the full 16x128x128 alphabet (few-value and full-value mixes, 1-16 channels); distinct_nontrivial = explorer states + random histories in which at least one message was reported ; explorer runs rotate their abstract values and channels (fixed pair {0,1}, seeded pairs, spec-dictionary pairs such as {0,6}, {0,3}; thorough/release: every 7-bit value) ; repetition (pumping) workloads repeat every cycle of one or two symbols and every documented unit form 300x (unit forms and single symbols 66 000x) from several start states, applying all tail symbols to a copy after each iteration ; a third of the random histories draws number bytes, values and channels from the spec dictionary");
     let base: Vec<u8> = if cfg.thorough && !cfg.as_c18 { vec![0, 1, 127] } else { vec![0, 1] };
     let mut setups: Vec<(Vec<u8>, Vec<u8>)> = if cfg.as_c18 {
         vec![(vec![2], base.clone())]
@@ -632,7 +632,7 @@ impl Sys for PnVisit {
 }
 
 pub fn run_c10(cfg: &Cfg, rep: &mut Report) {
-    rep.rule("crate encoder -> scanner: every message kind (7-bit, increment, decrement in either byte-order parameter; 14-bit LSB-first) for all numbers x boundary values, all values x boundary numbers, all channels, after (a) every reachable abstract scanner state found by a fixpoint explorer and (b) seeded junk histories over the full alphabet; running forms x y D D D.. and x y L M L M.. up to length 8 (thorough 32) and seeded longer; non-trivial = unit fed to a scanner that is not in its initial state; distinct by (prior state, message)");
+    rep.rule("crate encoder -> scanner: every message kind (7-bit, increment, decrement in either byte-order parameter; 14-bit LSB-first) for all numbers x boundary values, all values x boundary numbers, all channels, after (a) every reachable abstract scanner state found by a fixpoint explorer and (b) seeded junk histories over the full alphabet; running forms x y D D D.. and x y L M L M.. up to length 8 (thorough 32) and seeded longer; non-trivial = unit fed to a scanner that is not in its initial state; distinct by (prior state, message) ; the prior-state explorer rotates its abstract values/channels and the message sample contains the numbers that can be formed from them ; one 7-bit encoding is fed 70 000 times after a 14-bit message");
     // (a) explorer states x message sample; abstract values rotate, and the sample contains the
     // parameter numbers that can be formed from them (same-number re-selection included)
     let mut rng = Rng::derive(cfg.seed, 0xC10);
